@@ -3,7 +3,7 @@
  *   CSTL_NAME        list object: { head (sentinel node = end()), size }
  *   CSTL_NAME_pool   nodes: next/prev/val, alive, sent (is an end() sentinel), owner (sentinel of
  *                    the list the node is linked into)
- * An iterator is a node id; ++/--/* need only the pool, exactly as with libstdc++ heap nodes.
+ * An iterator is a node id; ++, --, deref need only the pool, exactly as with libstdc++ heap nodes.
  */
 #define L_ CSTL_NAME
 #define LP_ CSTL_CAT(CSTL_NAME, _pool)
